@@ -1,0 +1,72 @@
+//go:build verif && !tinywasm
+
+package gtree
+
+import (
+	"context"
+	"io"
+)
+
+// VerifSplit runs the massive-mode splitter on r and returns the blocks it emits, in order,
+// together with the error it reports (nil if none). Test harness only.
+func VerifSplit(r io.Reader) ([]string, error) {
+	ctx, cancel := context.WithCancel(context.Background())
+	defer cancel()
+
+	blockc, errc := split(ctx, r)
+	var (
+		blocks []string
+		err    error
+	)
+	for blockc != nil || errc != nil {
+		select {
+		case b, ok := <-blockc:
+			if !ok {
+				blockc = nil
+				continue
+			}
+			blocks = append(blocks, b)
+		case e, ok := <-errc:
+			if !ok {
+				errc = nil
+				continue
+			}
+			err = e
+		}
+	}
+	return blocks, err
+}
+
+// VerifGenerateBlock runs the massive-mode generate stage (a fresh one) on a single block and
+// returns the root it emits (nil if none) and the error it reports. Test harness only.
+func VerifGenerateBlock(block string) (*Node, error) {
+	ctx, cancel := context.WithCancel(context.Background())
+	defer cancel()
+
+	blocks := make(chan string, 1)
+	blocks <- block
+	close(blocks)
+
+	rootc, errc := newRootGeneratorPipeline().generate(ctx, blocks)
+	var (
+		root *Node
+		err  error
+	)
+	for rootc != nil || errc != nil {
+		select {
+		case n, ok := <-rootc:
+			if !ok {
+				rootc = nil
+				continue
+			}
+			root = n
+		case e, ok := <-errc:
+			if !ok {
+				errc = nil
+				continue
+			}
+			err = e
+		}
+	}
+	return root, err
+}
